@@ -18,8 +18,9 @@ theorem run_entry (cs : Bool) (sid : Nat) (f : CSem2.Func) (ρ : List Int) (v : 
     (P : List CSem2.Func) (p : Prog) (ext : Qbe.Ext) (K d : Nat)
     (hfuncs : ∀ fn g', lookup P fn = some g' →
       ∃ sid', p.funcs[fn]? = some (FuncInfo.of (Lower2.emitFunc cs sid' g')))
-    (hP : ∀ fn g', lookup P fn = some g' → CSem2.WT g' ∧ callsOK P g'.body = true ∧ g'.vtys.length ≤ K)
-    (hfrag : frag P f.body = true) (hK : f.vtys.length ≤ K)
+    (hP : ∀ fn g', lookup P fn = some g' →
+      CSem2.WT g' ∧ callsOK P g'.body = true ∧ g'.vtys.length + g'.extra ≤ K)
+    (hfrag : frag P f.cnts f.body = true) (hK : f.vtys.length + f.extra ≤ K)
     (hfun : p.funcs[f.name]? = some (FuncInfo.of (Lower2.emitFunc cs sid f)))
     (hstack : p.initMem.stack = #[]) (hsp : p.initMem.sp = stackTop)
     (hroom : Room K (d + 1) p.initMem)
@@ -88,8 +89,13 @@ theorem lower2_correct_prog (cs : Bool) (startid : Nat) (f : CSem2.Func) (ρ : L
       ∀ fuel, fuel₀ ≤ fuel →
         runFunc p ext f.name (argsOf f.params ρ) fuel = ⟨#[], .ret (.scalar r)⟩ := by
   have hvl : f.vtys.length = f.params.length + f.locals.length := by simp [CSem2.Func.vtys]
-  refine run_entry cs startid f ρ v hwt henv [] p ext f.vtys.length 0
-    (by intro fn g h; simp [lookup] at h) (by intro fn g h; simp [lookup] at h) (frag_nil _) (Nat.le_refl _)
+  have hextra : f.extra ≤ 1000000 := by
+    have h := hwt
+    simp only [CSem2.WT, CSem2.Func.wt, Bool.and_eq_true, decide_eq_true_eq] at h
+    exact h.2
+  refine run_entry cs startid f ρ v hwt henv [] p ext (f.vtys.length + f.extra) 0
+    (by intro fn g h; simp [lookup] at h) (by intro fn g h; simp [lookup] at h)
+    (frag_nil _ _ (wt_arrsOK hwt)) (Nat.le_refl _)
     hfun hstack hsp ?_ fuelC (Or.inl rfl) hex
   constructor
   · rw [hsp, stackTop_val, stackLimit_val]; omega
